@@ -259,6 +259,32 @@ def point_rows(prog, sh=None, thorough=False):
                            ("new", add(G, t)), ("new", neg(G)), ("add", 3, 4), ("is", 3, t), ("xy", 3, t), ("clone", 3, t)]))
         cases.append(("negation and comparison", [("new", G), ("neg", 0), ("is", 0, neg(G)), ("new", G), ("ne", 0, 1),
                                                   ("new", (0, 1)), ("ne", 1, 2)]))
+        # negation produces non-canonical limbs (x = 0 becomes the limb pattern of p, p - k becomes k + p ...): the comparison
+        # must still be one of field elements.  Points with x within 18 of p (25519 limbs are not reduced below 2^255)
+        small = []
+        for k in range(1, 60):
+            x = p - k
+            den = (1 - d * x * x) % p
+            if den:
+                y = sqrt_mod((1 - a * x * x) * pow(den, -1, p), p)
+                if y is not None:
+                    small.append((x, y))
+            if len(small) >= 3:
+                break
+        ops = [("new", (0, 1)), ("neg", 0), ("is", 0, (0, 1)), ("new", (0, p - 1)), ("neg", 1), ("is", 1, (0, p - 1))]
+        for (x, y) in small:
+            ops += [("new", (x, y)), ("neg", len([o for o in ops if o[0] == "new"]) - 0), ("is", len([o for o in ops if o[0] == "new"]) - 0, ((-x) % p, y))]
+        # (register numbers: fix them up below)
+        fixed, reg = [], -1
+        for o in ops:
+            if o[0] == "new":
+                reg += 1
+                fixed.append(o)
+            elif o[0] == "neg":
+                fixed.append(("neg", reg))
+            else:
+                fixed.append(("is", reg, o[2]))
+        cases.append(("negation of the neutral element, of the order-2 point and of points with x close to p, then comparison", fixed))
         cases.append(("get_xy of a projective result", [("new", G), ("dbl", 0), ("xy", 0, G2), ("new", G), ("add", 0, 1), ("xy", 0, G3)]))
         cases.append(("clone is independent", [("new", G2), ("clone", 0, G2), ("dbl", 0), ("is", 0, add(G2, G2))]))
         offs = [(G[0], (G[1] + 1) % p), (G[1], G[0]), (1, 1), (2, 3), (0, 0), (0, 2)]
